@@ -22,7 +22,7 @@ F_To     == {[fam |-> "to", lu |-> i, ru |-> j, ldt |-> "f8", ls |-> "s2"] : i \
 \* chains a -> b -> c against a -> c inside one dimension family
 F_Chain  == {[fam |-> "chain", lu |-> i, mu |-> j, ru |-> k, ldt |-> "f8", ls |-> "s2"] : i \in 1..NPool, j \in 1..NPool, k \in 1..NPool}
 NpArgKinds == {"arr", "nd1", "float"}
-F_Np     == {[fam |-> "np", f |-> f, lu |-> i, ru |-> i, rk |-> "none", ldt |-> a, ls |-> "s22"] : f \in Keep1 \cup Pred1 \cup Trans1, i \in SmallPool \cup {IdxOf("m2"), IdxOf("cm3")}, a \in Dts \cup {"u4"}}
+F_Np     == {[fam |-> "np", f |-> f, lu |-> i, ru |-> i, rk |-> "none", ldt |-> a, ls |-> "s22"] : f \in Keep1 \cup Pred1 \cup Index1 \cup Trans1, i \in SmallPool \cup {IdxOf("m2"), IdxOf("cm3")}, a \in Dts \cup {"u4"}}
             \cup {[fam |-> "np", f |-> f, lu |-> i, ru |-> j, rk |-> rk, ldt |-> a, ls |-> "s2"] :
                     f \in Keep2 \cup Pred2 \cup Trans2 \cup KeepSeq, i \in SmallPool, j \in SmallPool \cup {IdxOf("km")}, rk \in NpArgKinds, a \in {"f8", "f4", "i8"}}
             \* a pint Quantity handed straight to the numpy function: the same quantity as the Array it would wrap
